@@ -179,7 +179,8 @@ func runAsync(f lib.Flags, res *lib.Result, w *world, drv *lib.Driver, pool []sc
 // runResponseThenError: a client-streaming handler that sends its single response (SendAndClose) and
 // then returns an error. Real gRPC gives the client the error instead of the response (the response of a
 // method without server streaming is only delivered together with an OK status); the wrapper delivers the
-// response first. Recorded finding (see known_findings/C13.json), outside the scripts of the model ties.
+// response first. Repaired by 14df317 (the client's RecvMsg of a call without server streaming reads on to the
+// handler's return); the script stays as a fixed regression case, and the generator produces the family.
 // runTrailerAfterAbort: Trailer() after RecvMsg returned the client's own cancellation. gRPC has received
 // no trailers then; the wrapper hands out what the handler has staged so far. Recorded finding.
 func runTrailerAfterAbort(w *world, mon *lib.Monitor) {
